@@ -203,6 +203,8 @@ class RecordImpl:
         if a == "set_inclusive":
             r.inclusive = bool(o["x"])
             return {"t": "ok"}
+        if a == "valid":
+            return {"t": "bool", "b": bool(r.valid)}
         if a == "recon":
             r.reconstrain(0, None if o["size"] == -1 else o["size"])
             return {"t": "ok"}
@@ -229,7 +231,7 @@ class RecordImpl:
         seen = {}
 
         def probe(prev_data, next_data, sample_at, step_time, **kw):
-            seen["prev"], seen["next"], seen["at"], seen["dt"] = prev_data, next_data, sample_at, step_time
+            seen["prev"], seen["next"], seen["at"], seen["dt"] = prev_data.clone(), next_data.clone(), sample_at.clone(), step_time
             return torch.full(prev_data.shape, SENTINEL, dtype=torch.float32)
 
         tol = (o["tol2"] / 2) * self.tick
@@ -256,7 +258,8 @@ class RecordImpl:
         D = _ticks(d, self.tick)
 
         def probe(sample, sample_at, prev_data, next_data, step_time, **kw):
-            seen["sample"], seen["prev"], seen["next"], seen["at"], seen["dt"] = sample, prev_data, next_data, sample_at, step_time
+            seen["sample"], seen["prev"], seen["next"] = sample.clone(), prev_data.clone(), next_data.clone()
+            seen["at"], seen["dt"] = sample_at.clone(), step_time
             p = torch.tensor([v / 2 for v in o["pv"]], dtype=torch.float32).reshape(prev_data.shape)
             n = torch.tensor([v / 2 for v in o["nv"]], dtype=torch.float32).reshape(next_data.shape)
             return p, n
